@@ -204,6 +204,21 @@ Definition opposite_in (other : list term) (t : term) : bool :=
   | None => false
   end.
 
+(* Conjunction::operator== / the equivalence induced by operator<=> (both defaulted: members compared one
+   by one): the conjunction is used as a std::map KEY (Retiming.cpp, cache of rebuilt enable signals), so
+   "equal as a key" is a conclusion of the analysis just like isEqualTo.  Terms are compared with all three
+   fields (driver, negated, conjunctionDriver), the flags must agree. *)
+Definition opt_nat_eqb (a b : option nat) : bool :=
+  match a, b with Some x, Some y => x =? y | None, None => true | _, _ => false end.
+Definition term_same (other : list term) (t : term) : bool :=
+  match term_find other (t_driver t) with
+  | Some t' => Bool.eqb (t_neg t') (t_neg t) && opt_nat_eqb (t_cdrv t') (t_cdrv t)
+  | None => false
+  end.
+Definition conj_same (a b : conj) : bool :=
+  Bool.eqb (c_undef a) (c_undef b) && Bool.eqb (c_contra a) (c_contra b) &&
+  (length (c_terms a) =? length (c_terms b)) && forallb (term_same (c_terms b)) (c_terms a).
+
 Definition isNegationOf (a b : conj) : bool :=
   if c_undef a || c_undef b then false
   else if c_contra a then negb (c_contra b) && (length (c_terms b) =? 0)
